@@ -85,6 +85,7 @@ var (
 
 var (
 	bigStr   = strings.Repeat("s", 60000)
+	longEsc  = "\"" + strings.Repeat("e", 6000) + "\n\u00e9" + strings.Repeat("f", 6000)
 	bigBytes = bytes.Repeat([]byte("b"), 45000)
 )
 
@@ -140,6 +141,7 @@ var methods = map[string]func(e *zerolog.Event) *zerolog.Event{
 		return e.Durs("di", []time.Duration{vDur[variant], time.Second})
 	},
 	"StrBig":      func(e *zerolog.Event) *zerolog.Event { return e.Str("big", bigStr) },
+	"StrLongEsc":  func(e *zerolog.Event) *zerolog.Event { return e.Str("lesc", longEsc) },
 	"BytesBig":    func(e *zerolog.Event) *zerolog.Event { return e.Bytes("bigb", bigBytes) },
 	"ArrayEmpty":  func(e *zerolog.Event) *zerolog.Event { return e.Array("arr0", zerolog.Arr()) },
 	"DictEmpty":   func(e *zerolog.Event) *zerolog.Event { return e.Dict("dict0", zerolog.Dict()) },
